@@ -689,7 +689,33 @@ def run(rep: vlib.Reporter, tier: str, seed: int) -> None:
         else:
             rep.finding(f"join:{key}", wrong, replay)
             found = True
-    rep.count(len(recs))
+    # family derived_side: the consumer also depends on a feature derived IN PLACE from one of the linked sources (a step between the
+    # source and the transform / join steps); oracle = the Links' join of the source tables, the derived side extended by the column
+    from harness import c05_derived
+    fam = [(s, o) for s, o in c05_derived.family(rng, big) if kf_domain(o) is None]
+    drecs = [one(s) for s, _o in fam]
+    dterms, didx = [], []
+    dstat: Dict[str, int] = {}
+    for i, r in enumerate(drecs):
+        dstat[r["status"]] = dstat.get(r["status"], 0) + 1
+        if r["status"] == "ok" and r["rows"] is not None:
+            didx.append(i)
+            dterms.append(term(fam[i][1], r["rows"]))
+        else:
+            rep.finding(f"derived-side:{json.dumps(fam[i][0], sort_keys=True)}",
+                        f"consumer over a linked source and a feature derived from it in place: the request did not run ({r['status']}: {r.get('exc')})",
+                        {"kind": "derived", "spec": fam[i][0], "oracle": fam[i][1], "status": r["status"], "exc": r.get("exc")})
+            found = True
+    dbad = vlib.run_cases("C05", "derived", REQ, "chk_join", dterms, extra_defs=EXTRA, case_type=CASE_TY, shard=60)[0] if dterms else []
+    for k in dbad[:6]:
+        i = didx[k]
+        rep.finding(f"derived-side:{json.dumps(fam[i][0], sort_keys=True)}",
+                    "consumer over a linked source and a feature derived from it in place: the rows received are not the Links' join of the "
+                    "source tables with the derived column (e.g. the other framework's copy was taken before the derived step ran)",
+                    {"kind": "derived", "spec": fam[i][0], "oracle": fam[i][1], "rows": drecs[i]["rows"]})
+        found = True
+    dist["derived_side"] = {"requests": len(fam), "status": dstat, "compared": len(dterms), "disagreements": len(dbad)}
+    rep.count(len(recs) + len(drecs))
     dist["dimensions"] = counters
     dist["equal_to_spec_by_dimension"] = correct_by
     rep.add("distribution", dist)
@@ -717,6 +743,13 @@ def replay(path: str) -> int:
     r = json.load(open(path))["replay"]
     install()
     spec = r["spec"]
+    if r.get("kind") == "derived":
+        rec = one(spec)
+        print(json.dumps({k: rec.get(k) for k in ("status", "exc", "rows")}, indent=1, default=str))
+        if rec["status"] == "ok" and rec.get("rows") is not None:
+            bad, _ = vlib.run_cases("C05", "replay", REQ, "chk_join", [term(r["oracle"], rec["rows"])], extra_defs=EXTRA, case_type=CASE_TY)
+            print("rows received = rel_join of the Links over the source tables extended by the derived column:", not bad)
+        return 0
     rec = one(spec)
     dom = kf_domain(spec)
     print(json.dumps({k: rec.get(k) for k in ("status", "exc", "rows")}, indent=1, default=str), "kf domain:", dom, "dims:", dims(spec))
